@@ -33,16 +33,18 @@ func (d *ParserCustomData) PrepareCustomDice(p *parser) bool {
 	return true
 }
 
-func (d *ParserCustomData) ConsumeCustomDice(p *parser) any {
+// ConsumeCustomDice advances the parser over the pending match. It is called from a
+// predicate (not an action) so that it also runs inside look-ahead, where actions are skipped.
+func (d *ParserCustomData) ConsumeCustomDice(p *parser) bool {
 	match := d.ensurePendingCustomDice(p)
 	if match == nil {
-		return nil
+		return false
 	}
 
 	if match.byteLen <= 0 {
 		// nothing matched; prevent infinite loop by clearing pending state
 		d.pendingCustomDice = nil
-		return nil
+		return false
 	}
 
 	targetOffset := match.startOffset + match.byteLen
@@ -50,7 +52,7 @@ func (d *ParserCustomData) ConsumeCustomDice(p *parser) any {
 		p.read()
 	}
 
-	return nil
+	return true
 }
 
 func (d *ParserCustomData) CommitCustomDice() any {
